@@ -153,7 +153,10 @@ func (cache *TxCache) evictLeastLikelyToSelectTransactions() *evictionJournal {
 
 		// Remove those transactions from "txListBySender".
 		for sender, nonce := range lowestToEvictBySender {
-			cache.txListBySender.removeTransactionsWithHigherOrEqualNonce([]byte(sender), nonce)
+			// Transactions with the same nonce as an evicted one (or with higher nonces, added in the meantime) are removed, as well.
+			// They have to be removed from "txByHash", too.
+			removedHashes := cache.txListBySender.removeTransactionsWithHigherOrEqualNonce([]byte(sender), nonce)
+			_ = cache.txByHash.RemoveTxsBulk(removedHashes)
 		}
 
 		// Remove those transactions from "txByHash".
